@@ -23,6 +23,8 @@ import (
 // twin runtime that only received the effects whose completion probes fired.
 // The contexts the evaluations run under, when those end, and the definitions
 // that outlive them are the second dimension of a history: see c05_ctx.go.
+// The cases after the histories sweep every limit over a window of values for
+// generated recursion shapes (which push trips the limit): see c05_sweep.go.
 
 func init() {
 	fw.Register(&fw.Prop{
@@ -32,13 +34,15 @@ func init() {
 			"a random subset failing by 29 fault kinds incl. a step budget exhausted at an enumerated step index, cancellation at an enumerated step index and a real context cancelled by the host at an enumerated effect; " +
 			"evaluations define functions, closures and macros (bodies through special operators and re-entrant builtins) under scripted and real contexts (WithCancel, WithDeadline, children of a parent) that end mid-evaluation, right after the return or later in the history, and later steps call them through every entry point without a context or under a fresh one; " +
 			"invariants asserted after every return, no context-cancelled condition out of an evaluation whose own context is absent or live, no question put to the context of a finished evaluation, and a context-free probe program (prints and calls every definition) compared with a twin runtime that replays only completed effects. " +
-			"distinct_nontrivial counts distinct (entry point, fault kind, fault position class, outcome condition) combinations observed",
+			"After the histories, limit sweeps: generated recursion shapes (cycles of 1-3 functions, the recursive call wrapped in up to four forms drawn from functions, special operators, user macros, builtin macros and callbacks) fail in one runtime under EVERY value of a 13-wide window of one limit (physical height, logical height, evaluator nesting, tail iterations, macro expansion depth; several window positions incl. very small limits), through every entry point, bare / in argument position / swallowed / under a macro or a callback, so that the refused push is a function frame, an operator frame and a macro frame in turn; same assertions and twin probe after every return; a scout runtime labels which frame the physical limit refuses. " +
+			"distinct_nontrivial counts distinct (entry point, fault kind, fault position class, outcome condition) combinations observed, plus (limit, entry point, surrounding form, refused frame kind, outcome) of the sweeps",
 		Assumptions: []string{
 			"effects in the workload are atomic statements each followed by a completion probe, so 'completed' is read off the effect trace",
 			"the twin runtime is driven through plain LoadString without faults",
 		},
-		Cases:       func(tier string) int { return pick(tier, 1200, 40000) },
+		Cases:       func(tier string) int { return c05HistCases(tier) + c05SweepCases(tier) },
 		Run:         c05Run,
+		Driver:      c05Driver,
 		MinDistinct: func(tier string) int { return pick(tier, 150, 250) },
 	})
 }
@@ -217,6 +221,15 @@ const c05ProbeProgram = `(list other-pkg:own (handler-bind ((condition (lambda (
 // c05NewRuntime builds a runtime under one of several legitimate host configurations
 // (a limit switched off is as legitimate as a limit set).
 func c05NewRuntime(variant int) *rt.R {
+	r := rt.New(c05Opts(variant))
+	if v := r.Env.LoadString("prelude", c05Prelude); v.Type == lisp.LError {
+		panic("c05 prelude: " + v.String())
+	}
+	return r
+}
+
+// c05Opts is the host configuration of variant.
+func c05Opts(variant int) rt.Opts {
 	o := rt.Opts{MaxPhys: 300, MaxNest: 600, MaxMacro: 50, MaxTail: 5000}
 	switch variant % 4 {
 	case 1:
@@ -227,11 +240,7 @@ func c05NewRuntime(variant int) *rt.R {
 	case 3:
 		o.MaxNest, o.MaxMacro = 5000, 200
 	}
-	r := rt.New(o)
-	if v := r.Env.LoadString("prelude", c05Prelude); v.Type == lisp.LError {
-		panic("c05 prelude: " + v.String())
-	}
-	return r
+	return o
 }
 
 type c05State struct {
@@ -247,6 +256,11 @@ func c05Snapshot(r *rt.R) c05State {
 }
 
 func c05Run(w *fw.W, idx int) {
+	if nh := c05HistCases(w.Tier); idx >= nh {
+		// the cases after the histories: limit sweeps (c05_sweep.go)
+		c05SweepRun(w, idx-nh)
+		return
+	}
 	r := w.RNG(idx, "hist")
 	variant := idx / 3
 	main := c05NewRuntime(variant)
@@ -435,21 +449,7 @@ func c05Run(w *fw.W, idx int) {
 		w.Logf("%s", desc)
 
 		key := fmt.Sprintf("%s/%s", entry, fault)
-		bad := ""
-		switch {
-		case after.stack != 0:
-			bad = fmt.Sprintf("call stack holds %d frames after return", after.stack)
-		case after.cond != 0:
-			bad = fmt.Sprintf("%d condition(s) still pending for rethrow after return", after.cond)
-		case after.nest != 0:
-			bad = fmt.Sprintf("evaluator nesting is %d after return", after.nest)
-		case after.depth != 0:
-			bad = fmt.Sprintf("entry depth is %d after return", after.depth)
-		case after.pkg != before.pkg:
-			bad = fmt.Sprintf("current package changed from %q to %q", before.pkg, after.pkg)
-		case after.ctx != before.ctx:
-			bad = fmt.Sprintf("evaluation context of the root environment not restored (was %v, now %v)", before.ctx, after.ctx)
-		}
+		bad := c05Dirty(before, after)
 		if bad != "" {
 			w.Violation("dirty-runtime:"+c05DirtyClass(bad)+":"+key, bad+" (entry "+entry+", fault "+fault+")", strings.Join(history, "\n---\n"))
 			return
@@ -598,6 +598,25 @@ func c05Run(w *fw.W, idx int) {
 		}
 		w.Sample(map[string]any{"history_first_steps": history[:n], "steps": nsteps})
 	}
+}
+
+// c05Dirty says what is not clean in the state after a return ("" = clean).
+func c05Dirty(before, after c05State) string {
+	switch {
+	case after.stack != 0:
+		return fmt.Sprintf("call stack holds %d frames after return", after.stack)
+	case after.cond != 0:
+		return fmt.Sprintf("%d condition(s) still pending for rethrow after return", after.cond)
+	case after.nest != 0:
+		return fmt.Sprintf("evaluator nesting is %d after return", after.nest)
+	case after.depth != 0:
+		return fmt.Sprintf("entry depth is %d after return", after.depth)
+	case after.pkg != before.pkg:
+		return fmt.Sprintf("current package changed from %q to %q", before.pkg, after.pkg)
+	case after.ctx != before.ctx:
+		return fmt.Sprintf("evaluation context of the root environment not restored (was %v, now %v)", before.ctx, after.ctx)
+	}
+	return ""
 }
 
 func c05DirtyClass(bad string) string {
